@@ -1012,6 +1012,36 @@ def string_family():
     return out
 
 
+def longstring_family():
+    """Systematic product: triple-quoted literals whose body contains runs of the delimiter's own quote
+    character (one, two, two pairs, an escaped one, one right before the closing quotes) x one line / several
+    lines x the position of the literal (docstring, assignment, argument, implicit concatenation, prefixes).
+    Same keying as the parenthesis family."""
+    out = []
+    bodies = ['say {q} now', 'Return {q}{q} when nothing', '{q}{q} first', 'a {q}{q} b {q}{q} c', 'esc \\{q} end',
+              'pair {q}{q}\\{q}', 'other {o}{o}{o} kind', 'x{q} {q}y']
+    hosts = ["def fn(a):\n    {L}\n    return a\n", "doc = {L}\nafter = 1\n", "print({L}, 2)\nafter = 1\n",
+             "both = ({L}\n        'tail')\nafter = 1\n", "class K:\n    {L}\n    attr = {L}\n"]
+    for qi, (q, o) in enumerate((('"', "'"), ("'", '"'))):
+        for bi, b in enumerate(bodies):
+            text = b.replace("{q}", q).replace("{o}", o)
+            for li, lines in enumerate((text, text + "\n    was found.\n    ", "\n" + text + "\n")):
+                for pi, prefix in enumerate(("", "r", "b")):
+                    if prefix == "r" and "\\" in text and text.endswith("\\" + q):
+                        continue
+                    lit = prefix + q * 3 + lines + q * 3
+                    for hi, h in enumerate(hosts):
+                        if (bi + li + pi + hi) % 2 and pi:      # prefixes only on half of the hosts
+                            continue
+                        src = h.replace("{L}", lit)
+                        try:
+                            compile(src, "<longstr>", "exec", dont_inherit=True)
+                        except (SyntaxError, ValueError):
+                            continue
+                        out.append((f"paren-family/longstr/{qi}/{bi}/{li}/{pi}/{hi}", src))
+    return out
+
+
 def cases(tier, seed):
     import random
     rnd = random.Random(f"{seed}/C08/cases")
@@ -1096,7 +1126,7 @@ def run_case(spec):
                 total += _check_variant(res, sn, rnd, spec["nmut"], {"file": rel, "snippet_variant": j})
             res.sample({"kind": "file", "path": rel, "chars": len(src), "violations": total})
         elif spec["kind"] == "seeds":
-            for label, sn in WITNESSES + paren_family() + string_family():
+            for label, sn in WITNESSES + paren_family() + string_family() + longstring_family():
                 if corpus.compiles(sn):
                     res.ev("witness_sources")
                     total += check_source(sn, res, {"witness": label, "source": sn})
